@@ -962,9 +962,18 @@ func (self *LockResultCommandData) GetDataProperties() []*LockCommandDataPropert
 		return nil
 	}
 	properties := make([]*LockCommandDataProperty, 0)
+	if len(self.Data) < 8 {
+		return properties
+	}
 	propertyLen, index := int(self.Data[6])|int(self.Data[7])<<8, 0
-	for index < propertyLen {
+	if 8+propertyLen > len(self.Data) {
+		propertyLen = len(self.Data) - 8
+	}
+	for index+3 <= propertyLen {
 		propertyCode, valueLen := self.Data[8+index], int(self.Data[9+index])|int(self.Data[10+index])<<8
+		if index+3+valueLen > propertyLen {
+			break
+		}
 		if valueLen > 0 {
 			properties = append(properties, NewLockCommandDataProperty(propertyCode, self.Data[11+index:11+index+valueLen]))
 		} else {
@@ -979,9 +988,18 @@ func (self *LockResultCommandData) GetDataProperty(code uint8) *LockCommandDataP
 	if self.DataFlag&LOCK_DATA_FLAG_CONTAINS_PROPERTY == 0 {
 		return nil
 	}
+	if len(self.Data) < 8 {
+		return nil
+	}
 	propertyLen, index := int(self.Data[6])|int(self.Data[7])<<8, 0
-	for index < propertyLen {
+	if 8+propertyLen > len(self.Data) {
+		propertyLen = len(self.Data) - 8
+	}
+	for index+3 <= propertyLen {
 		propertyCode, valueLen := self.Data[8+index], int(self.Data[9+index])|int(self.Data[10+index])<<8
+		if index+3+valueLen > propertyLen {
+			break
+		}
 		if code == propertyCode {
 			if valueLen > 0 {
 				return NewLockCommandDataProperty(code, self.Data[11+index:11+index+valueLen])
